@@ -8,21 +8,17 @@
 (*   nbobs = [pre, post, conv]  nonbond_params after gen_pairs, after preprocess, and per pair the numeric monitor's *)
 (*           verdict "sigma/epsilon reproduce C6/C12 at 1e-9" (required TRUE for every pair under comb-rule 1)      *)
 (* Values of the non-bonded tables are canonical float strings.  A record outside the stated domain (ties) is       *)
-(* skipped and reported; a record that only matches the P-layer under a deviation recorded as a known finding is    *)
-(* accepted and reported with the finding's signature; anything else is rejected.                                   *)
+(* skipped and reported; anything that is not the P-layer result of the intended design (NoDev) is rejected.          *)
 EXTENDS TypeResolve, TypeResolveNB, Json, IOUtils
-CONSTANTS KnownPairs, KnownTbl      \* the proposed findings currently listed as known
 VARIABLES tid, l
 Recs == JsonDeserialize(IOEnv.TRACE_FILE)
 NoCases == {}
 ASSUME TLCSet(1, {})
 R == Recs[tid]
 
+\* the tree is validated against the intended design only (NoDev): a result that matches a repaired deviation is rejected
 BVerdict(r) == IF ~InDomain(r.top) THEN "skip"
                ELSE IF SameResult(r.obs, Expected(r.top, NoDev)) THEN "ok"
-               ELSE IF KnownPairs /\ SameResult(r.obs, Expected(r.top, [pairs |-> TRUE, tbl |-> FALSE])) THEN "pairs-not-typed"
-               ELSE IF KnownTbl /\ SameResult(r.obs, Expected(r.top, [pairs |-> FALSE, tbl |-> TRUE])) THEN "define-in-type-table"
-               ELSE IF KnownPairs /\ KnownTbl /\ SameResult(r.obs, Expected(r.top, [pairs |-> TRUE, tbl |-> TRUE])) THEN "pairs-not-typed+define-in-type-table"
                ELSE "reject"
 
 KeyOfRec(o) == {o.a, o.b}
